@@ -9,7 +9,7 @@ TEXT = {
          "Seeded search over simulated runs: the real runner executes generated programs whose every callback is scripted (raise / interrupt / skip / pass); the exit code is compared with the reference model's reading of the realised events (no false green, no false red). For every 8th world the clause (plus any single raising hook or cleanup) is enumerated: each hook invocation and each registered cleanup of the run raises once and the verdict must turn red. A sample of worlds is re-executed as a real child process (python, real pipes) and its exit code compared. Sampling of worlds, so evidence not proof; that is the right level because the verdict is a 5-way disjunction over unbounded trees and fault positions.",
          "reference model sim/model.py; in-process run through Configuration + run_behave; auto-retry worlds excluded (outside the quantifier)"),
  "C02": ("exploration", "run-sim", "5.C02",
-         "Lock-step acceptor over the step-function call log (order, background inheritance, nothing after the first non-pass, dry-run purity) plus outcome->status mapping for every executed step, including auto-retry histories (statuses depend on the last attempt only) and async step functions wrapped by async_run_until_complete that sleep, spawn tasks and hit behave's timeout under a virtual-time asyncio loop (no real sleeping). Sampled worlds.",
+         "Lock-step acceptor over the step-function call log (order, background inheritance, nothing after the first non-pass, dry-run purity) plus outcome->status mapping for every executed step, including auto-retry histories (statuses depend on the last attempt only) and async step functions wrapped by async_run_until_complete that sleep, spawn tasks and hit behave's timeout under a virtual-time asyncio loop (no real sleeping). For every 40th world the first non-pass is placed at every step call-site x {assert, exception, not-implemented, interrupt, skip}. Sampled worlds.",
          "the model decides 'has a definition' with its own regexes built from the abstract patterns; continue_after_failed_step worlds only check the mapping"),
  "C03": ("exploration", "run-sim", "5.C03",
          "Every element's status is checked bottom-up against the ACTUAL statuses of its children as produced by real runs (stop/abort remainders, hook errors, dry-run, de-selection, retries); the status classification table is checked once per process. Sampled worlds; cells reached are listed in the evidence.",
@@ -39,7 +39,7 @@ TEXT = {
          "Run 1 writes the rerun file (sometimes over a stale one) under step failures, exceptions, undefined steps and hook errors; its content must equal the census of failed/error-class scenarios in run order, or the file must be gone when there are none. Run 2 is given '@file' with every fault removed and must execute exactly the listed scenarios and skip the rest.",
          "second run reuses the model's location selection (C10) as oracle"),
  "C18": ("exploration", "run-sim", "5.C18",
-         "Steps, step hooks and nested steps print unique markers to stdout/stderr/logging under all 8 capture switch combinations and every outcome class (incl. KeyboardInterrupt, step-hook errors): the simulator-owned TTYs record each chunk with the callback active at that moment; probes at every callback check the identity of sys.stdout/sys.stderr and the root logger's handlers/level; failure reports must contain exactly the markers of their own scenario; with a switch off the markers must arrive on the TTY in order.",
+         "Steps, step hooks and nested steps print unique markers to stdout/stderr/logging under all 8 capture switch combinations and every outcome class (incl. KeyboardInterrupt, step-hook errors): the simulator-owned TTYs record each chunk with the callback active at that moment; probes at every callback check the identity of sys.stdout/sys.stderr and the root logger's handlers/level; failure reports must contain exactly the markers of their own scenario; with a switch off the markers must arrive on the TTY in order. For every 40th world every step call-site x outcome class is enumerated; every 211th world is re-run as a real child process (real pipes) and its per-stream marker sets compared.",
          "in-process TTY objects stand for the real streams; logging-filter worlds only check foreign markers"),
  "C05": ("fault_enumeration", "file-fault simulator", "5.C05",
          "The text the parser consumes is treated as storage under fault: for every sampled valid rendered document ALL (line position x fault kind) combinations are enumerated - torn write after/inside each line, lost line, duplicated line, swapped neighbours - plus every catalogued grammar violation at every position where it is one, delivered through parse_file on the scratch disk, parse_feature, parse_rule, parse_scenario, parse_steps and parse_tags, plus multi-language line soups. The call must return or raise ParserError with a line inside the text (the injected line for catalogued faults); anything else is a violation.",
